@@ -37,6 +37,7 @@ EXPLANATION += (' R-C05-15 (helper shared with the C07 rules): every class searc
 EXPLANATION += (' R-C05-16: with per-point look-up tables of the binned law the class of every point is searched in that point\'s own table; a search with the first point\'s load whose result selects the rows of all points is reported (open known finding: four look-up methods).')
 EXPLANATION += (' R-C05-17 (shared with R-C04-10): the representative assessment point is the first stored row everywhere in the detector module (no first-after-sort).')
 EXPLANATION += (' R-C05-18 (shared state-family rules, sa/statefam.py; who-may-write): the private stress / strain / load attributes of an HCM point are assigned only by methods of FKMNonlinearDetector (in which the point class is nested), by the point itself, or on a point created in the same function; the history holds the objects that are still open residuals.')
+EXPLANATION += (" R-C05-19: the rule R-C10-12 evaluated for this property (no method of FKMNonlinearDetector re-orders pandas data by labels or values).")
 ASSUMPTIONS = ["pd.concat([a, b]) appends b after a"]
 
 LISTS = ["_loads_min", "_loads_max", "_S_min", "_S_max", "_epsilon_min", "_epsilon_max", "_epsilon_min_LF",
@@ -44,8 +45,27 @@ LISTS = ["_loads_min", "_loads_max", "_S_min", "_S_max", "_epsilon_min", "_epsil
 
 
 def run(ctx):
-    for r in (_r1, _r2, _r3, _r4, _r5, _r6, _r7, _r8, _r9, _r10, _r11, _r12, _r13, _r14, _r15, _r16, _r17, _r18):
+    for r in (_r1, _r2, _r3, _r4, _r5, _r6, _r7, _r8, _r9, _r10, _r11, _r12, _r13, _r14, _r15, _r16, _r17, _r18, _r19):
         ctx.attempt(r)
+
+
+def _r19(ctx):
+    """R-C05-19 (the rule R-C10-12 evaluated for this property): 'assessing several points at once gives every point the values it gets
+    alone' - the detector pairs the rows of a load step by position with per-point state carried between the passes (representative
+    point, held-back sample, residual points); no method of the detector re-orders pandas data by labels."""
+    from .c10 import label_reorderings
+    prog = ctx.prog
+    ctx.rule("R-C05-19", floor=1, what="the FKM nonlinear detector does not re-order the load sequence by its labels (shared with R-C10-12)")
+    ci = prog.cls("pylife.stress.rainflow.fkm_nonlinear:FKMNonlinearDetector")
+    hits = 0
+    for name, defs in sorted(ci.methods.items()):
+        fi = defs[-1]
+        for c, text in label_reorderings(fi.node):
+            hits += 1
+            ctx.violated(fi, c, "FKMNonlinearDetector.%s re-orders pandas data by labels (%s): state carried between the passes and the per-point "
+                         "tables are paired with the rows of a load step by position" % (name, text), text="label re-ordering in " + name)
+    if not hits:
+        ctx.holds(ci.key, None, "%d methods of the detector: no sort_index / sort_values / reindex" % len(ci.methods))
 
 
 def _r18(ctx):
@@ -787,6 +807,26 @@ def _r9(ctx):
             kd = [key]                       # the key written in place: samples.loc[load_steps.iloc[-1]]
         ok = bool(kd) and isinstance(kd[-1], ast.Subscript) and isinstance(kd[-1].slice, ast.UnaryOp) and const_value(kd[-1].slice.operand) == 1 \
             and isinstance(kd[-1].value, ast.Attribute) and kd[-1].value.attr == "iloc"
+    if ls:
+        # the held-back sample of the PREVIOUS chunk is read (carried-tail repair) before this chunk's last sample replaces it
+        cfg_ = CFG(f.node)
+        succ_ = {a_: {d_ for d_, _l in lst_} for a_, lst_ in cfg_.succ.items()}
+        seen_, todo_ = set(), [cfg_.node(ls[0])]
+        while todo_:
+            x_ = todo_.pop()
+            for y_ in succ_.get(x_, ()):
+                if y_ not in seen_:
+                    seen_.add(y_)
+                    todo_.append(y_)
+        late = [st_ for st_ in walk_stmts(f.node.body) if cfg_.node(st_) in seen_ and st_ is not ls[0] and
+                any(is_self_attr(n_, "_last_sample") and isinstance(n_.ctx, ast.Load) for n_ in ast.walk(st_))
+                and not isinstance(st_, (ast.If, ast.For, ast.While, ast.With, ast.Try))]
+        if late:
+            ctx.violated(f, ls[0], "self._last_sample is overwritten with this chunk's last load step BEFORE `%s` reads it: the turning point "
+                         "that lies in the previous chunk gets the loads of the current chunk's last sample" % norm_text(late[0])[:70],
+                         text="last sample replaced before it is read")
+        else:
+            ctx.holds(f, ls[0], "the held-back sample of the previous chunk is read before it is replaced")
     if ok:
         ctx.holds(f, ls[0], "stored last sample = loads of the last load step of the chunk (.iloc[-1])")
     else:
